@@ -1,0 +1,67 @@
+//! Verification probes over the I/O thread's private parts (`--cfg amiquip_verif` only).
+//! They call the real code; they contain no logic of their own beyond plumbing.
+use super::channel_slots::ChannelSlots;
+use super::heartbeat_timers::HeartbeatTimers;
+use super::*;
+
+pub fn frame_overhead() -> usize {
+    super::channel_handle::VERIF_FRAME_OVERHEAD
+}
+
+pub fn max_missed() -> u32 {
+    super::heartbeat_timers::VERIF_MAX_MISSED_SERVER_HEARTBEATS
+}
+
+pub fn tokens() -> [usize; 4] {
+    [STREAM.0, HEARTBEAT.0, ALLOC_CHANNEL.0, SET_BLOCKED_TX.0]
+}
+
+/// (rx, tx) timer intervals in ms that a negotiated heartbeat of `secs` seconds starts.
+pub fn heartbeat_intervals_ms(secs: u16) -> Option<(u64, u64)> {
+    let mut t = HeartbeatTimers::default();
+    let mut inner = Inner::new(HeartbeatTimers::default(), 1);
+    inner.start_heartbeats(secs);
+    std::mem::swap(&mut t, &mut inner.heartbeats);
+    t.verif_intervals()
+        .map(|(rx, tx)| (rx.as_millis() as u64, tx.as_millis() as u64))
+}
+
+/// capacity of the per-channel reply queue (I/O thread -> handle)
+pub fn reply_queue_bound() -> usize {
+    let (slot, _handle) = ChannelSlot::new(1, 1);
+    slot.tx.capacity().unwrap_or(usize::max_value())
+}
+
+/// The real `ChannelSlots` table with unit payloads.
+pub struct SlotsProbe(ChannelSlots<()>);
+
+impl SlotsProbe {
+    pub fn new(channel_max: u16) -> SlotsProbe {
+        let mut s = ChannelSlots::new();
+        s.set_channel_max(channel_max);
+        SlotsProbe(s)
+    }
+    pub fn insert(&mut self, id: Option<u16>) -> Result<u16> {
+        self.0.insert(id, |id| Ok(((), id)))
+    }
+    /// insert whose `make_entry` fails (models a failed mio registration)
+    pub fn insert_failing(&mut self, id: Option<u16>) -> Result<u16> {
+        self.0.insert(id, |_| -> Result<((), u16)> { FrameUnexpectedSnafu.fail() })
+    }
+    pub fn remove(&mut self, id: u16) -> bool {
+        self.0.remove(id).is_some()
+    }
+    pub fn drain(&mut self) -> Vec<u16> {
+        let mut v: Vec<u16> = self.0.drain().map(|(id, _)| id).collect();
+        v.sort();
+        v
+    }
+    pub fn contains(&self, id: u16) -> bool {
+        self.0.get(id).is_some()
+    }
+    pub fn open_ids(&self) -> Vec<u16> {
+        let mut v: Vec<u16> = self.0.iter().map(|(id, _)| *id).collect();
+        v.sort();
+        v
+    }
+}
